@@ -9,7 +9,10 @@ mod formats;
 mod gen_cfg;
 mod gen_json;
 mod gen_regex;
+mod cmp;
 mod mon_c01;
+mod mon_c11;
+mod mon_c12;
 mod pool;
 mod ref_dfa;
 mod ref_earley;
@@ -48,6 +51,41 @@ fn main() {
     let mut ctx = Ctx::new(&prop, &args[2..]);
     match prop.as_str() {
         "selftest" => selftest::run(&mut ctx),
+        "probe" => {
+            // llgv probe --kind lark|regex|json --text '...' [--bytes 'abc']: development aid
+            let v = vocab::v1(false);
+            let f = engine::factory(&v, &engine::FactoryOpts::default()).unwrap();
+            let text = ctx.arg("--text").unwrap_or_default();
+            let g = match ctx.arg("--kind").as_deref() {
+                Some("regex") => engine::GCase::regex("probe", &text),
+                Some("json") => engine::GCase::json("probe", &text),
+                _ => engine::GCase::lark("probe", &text),
+            };
+            match engine::matcher(&f, &g) {
+                Err(e) => println!("compile error: {e}"),
+                Ok(mut m) => {
+                    println!("is_error={} {:?}", m.is_error(), m.get_error());
+                    if ctx.arg("--pre").as_deref() == Some("ffbytes") {
+                        println!("ff_bytes: {:?}", report::bytes_dbg(&m.compute_ff_bytes()));
+                    }
+                    if ctx.arg("--pre").as_deref() == Some("fftokens") {
+                        println!("ff_tokens: {:?}", m.compute_ff_tokens());
+                    }
+                    let bytes = ctx.arg("--bytes").unwrap_or_default();
+                    for b in bytes.bytes().map(Some).chain([None]) {
+                        let mask = m.compute_mask();
+                        match &mask {
+                            Ok(x) => println!("mask: {:?} accepting={:?}", engine::mask_list(x, v.n()).iter().map(|&t| if t < 256 { (t as u8 as char).to_string() } else { format!("<{t}>") }).collect::<Vec<_>>().join(""), m.is_accepting()),
+                            Err(e) => println!("mask error: {} stop={:?}", e.to_string().lines().next().unwrap_or(""), m.stop_reason()),
+                        }
+                        if let Some(b) = b {
+                            println!("consume {:?}: {:?} stopped={} {:?}", b as char, m.consume_token(b as u32).map_err(|e| e.to_string().lines().next().unwrap_or("").to_string()), m.is_stopped(), m.stop_reason());
+                        }
+                    }
+                }
+            }
+            return;
+        }
         "lint" => {
             // print compile errors of pool grammars (development aid)
             let v = vocab::v1(false);
@@ -64,6 +102,8 @@ fn main() {
             return;
         }
         "C01" => mon_c01::run(&mut ctx),
+        "C11" => mon_c11::run(&mut ctx),
+        "C12" => mon_c12::run(&mut ctx),
         _ => {
             eprintln!("unknown property {prop}");
             std::process::exit(2);
